@@ -238,7 +238,7 @@ def main(ctx):
     # T ---------------------------------------------------------------------------------------
     trace = ctx.path("trace.ndjson")
     clsf = ctx.path("gen_classes.json")
-    n = 24000 if thorough else 900
+    n = 100000 if thorough else 900
     ctx.harness(["record", "X03", "--out", trace, "--n", n, "--opt", "classes=" + clsf], timeout=1200)
     gen = json.load(open(clsf))
     for need in ("num/int", "num/fraction", "num/integral-float", "num/exponent", "num/huge", "dict/valid", "dict/damaged", "value/bool", "value/quoted",
